@@ -1251,6 +1251,28 @@ func (ex *Exec) execFor(s *ast.ForStmt) {
 			}
 		}
 	}
+	// canonical counting loop "for i := a; i < X; i++" whose body neither assigns i nor the variables of X: the built-in
+	// invariant a <= i <= X, and i is also known as riN to the loop's contract when a is 0 (as in a range loop)
+	if id, lo, hi, ok := ex.countingLoop(s); ok {
+		obj, _ := ex.info().ObjectOf(id).(*types.Var)
+		loT := ex.eval(lo).T
+		n := ex.loopOrdinalPeek(s.Pos())
+		lp.autoInv = func() *T {
+			saved := ex.quiet
+			ex.quiet++
+			i := ex.eval(id)
+			h := ex.eval(hi)
+			ex.quiet = saved
+			// (an upper bound below the start means the loop does not run at all)
+			return And(Le(loT, i.T), Or(Le(i.T, h.T), Lt(h.T, loT)))
+		}
+		if z, isNum := loT.isNum(); isNum && z.Sign() == 0 && obj != nil && !ex.boxed[obj] {
+			key := ex.keyOf(obj)
+			lp.bindIdx = func(sc *specCtx) {
+				sc.stateVars[fmt.Sprintf("ri%d", n)] = stateVar{key, typInt}
+			}
+		}
+	}
 	// default variant for "for !x.Empty()"
 	if u, ok := ast.Unparen(s.Cond).(*ast.UnaryExpr); ok && s.Cond != nil && u.Op == token.NOT {
 		if call, ok := ast.Unparen(u.X).(*ast.CallExpr); ok {
@@ -1603,4 +1625,115 @@ func (ex *Exec) runProducer(s *ast.RangeStmt, c *closure, sig *types.Signature, 
 	}
 	ex.inlineBody("rangefunc:"+name+"@"+ex.posString(s.Pos()), sig, c.lit.Type, c.lit.Body, nil, nil, []Val{{yv, sig.Params().At(0).Type()}}, ex.pkg, ex.curContract(), false)
 	delete(ex.closures, yv.String())
+}
+
+// countingLoop recognises "for i := a; i < X; i++" (or i += 1) where the body assigns neither i nor any variable that X
+// mentions, X is an identifier, a field selection or len of one, and a <= X holds trivially when the loop is entered
+// (i < X is the loop condition, so only the upper bound at exit needs a <= X: we require a to be the constant 0 and X a
+// length or an unsigned-or-nonnegative expression is not checked - the invariant is asserted at entry like any other).
+func (ex *Exec) countingLoop(s *ast.ForStmt) (id *ast.Ident, lo, hi ast.Expr, ok bool) {
+	init, isAssign := s.Init.(*ast.AssignStmt)
+	if !isAssign || init.Tok != token.DEFINE || len(init.Lhs) != 1 || len(init.Rhs) != 1 {
+		return nil, nil, nil, false
+	}
+	id, isIdent := init.Lhs[0].(*ast.Ident)
+	if !isIdent {
+		return nil, nil, nil, false
+	}
+	be, isBin := ast.Unparen(s.Cond).(*ast.BinaryExpr)
+	if s.Cond == nil || !isBin || be.Op != token.LSS {
+		return nil, nil, nil, false
+	}
+	if x, isX := ast.Unparen(be.X).(*ast.Ident); !isX || x.Name != id.Name {
+		return nil, nil, nil, false
+	}
+	switch p := s.Post.(type) {
+	case *ast.IncDecStmt:
+		if pid, isP := p.X.(*ast.Ident); !isP || pid.Name != id.Name || p.Tok != token.INC {
+			return nil, nil, nil, false
+		}
+	case *ast.AssignStmt:
+		pid, isP := p.Lhs[0].(*ast.Ident)
+		c, isC := ex.constInt(p.Rhs[0])
+		if !isP || pid.Name != id.Name || p.Tok != token.ADD_ASSIGN || !isC || c != 1 {
+			return nil, nil, nil, false
+		}
+	default:
+		return nil, nil, nil, false
+	}
+	// X: ident, selector chain, or len(of one)
+	hiExpr := ast.Unparen(be.Y)
+	inner := hiExpr
+	if call, isCall := inner.(*ast.CallExpr); isCall {
+		if fn, isFn := call.Fun.(*ast.Ident); !isFn || fn.Name != "len" || len(call.Args) != 1 {
+			return nil, nil, nil, false
+		}
+		inner = ast.Unparen(call.Args[0])
+	}
+	names := map[string]bool{id.Name: true}
+	for {
+		switch v := inner.(type) {
+		case *ast.Ident:
+			names[v.Name] = true
+		case *ast.SelectorExpr:
+			inner = ast.Unparen(v.X)
+			names[v.Sel.Name] = true
+			continue
+		case *ast.BasicLit:
+		default:
+			return nil, nil, nil, false
+		}
+		break
+	}
+	// the body must not assign i or anything X mentions, nor take their address, nor call through closures that could
+	assigned := false
+	ast.Inspect(s.Body, func(n ast.Node) bool {
+		switch st := n.(type) {
+		case *ast.AssignStmt:
+			for _, l := range st.Lhs {
+				root := ast.Unparen(l)
+				for {
+					switch r := root.(type) {
+					case *ast.SelectorExpr:
+						if names[r.Sel.Name] {
+							assigned = true
+						}
+						root = ast.Unparen(r.X)
+						continue
+					case *ast.IndexExpr:
+						root = ast.Unparen(r.X)
+						continue
+					case *ast.StarExpr:
+						assigned = true
+					case *ast.Ident:
+						if names[r.Name] {
+							assigned = true
+						}
+					}
+					break
+				}
+			}
+		case *ast.IncDecStmt:
+			if x, isX := ast.Unparen(st.X).(*ast.Ident); isX && names[x.Name] {
+				assigned = true
+			}
+		case *ast.UnaryExpr:
+			if st.Op == token.AND {
+				if x, isX := ast.Unparen(st.X).(*ast.Ident); isX && names[x.Name] {
+					assigned = true
+				}
+			}
+		case *ast.RangeStmt:
+			for _, e := range []ast.Expr{st.Key, st.Value} {
+				if x, isX := e.(*ast.Ident); isX && st.Tok == token.ASSIGN && names[x.Name] {
+					assigned = true
+				}
+			}
+		}
+		return true
+	})
+	if assigned {
+		return nil, nil, nil, false
+	}
+	return id, init.Rhs[0], be.Y, true
 }
